@@ -136,6 +136,7 @@ impl Prop for C04 {
         let mut case = Case::new("C04", cfg, ops);
         case.params.insert("fault_seed".into(), (rng.u64() >> 1) as i64);
         case.params.insert("lookalike".into(), i64::from(lookalike));
+        case.params.insert("explicit_auth".into(), i64::from(rng.chance(1, 2)));
         if big {
             case.params.insert("max_chunks".into(), 4);
         }
@@ -164,9 +165,11 @@ impl Prop for C04 {
         let model = model_of(&case.ops);
         let hlen = header_len(&case.cfg);
         let orig = refmla::decrypt_stream(&key, &nonce, &image[hlen..], chunk);
-        let rcfg = ReadCfg::for_cfg(&case.cfg);
+        let mut rcfg = ReadCfg::for_cfg(&case.cfg);
+        // the default mode is reached both ways: untouched configuration (as `mlar repair`) or explicit setter
+        rcfg.explicit_auth_mode = case.param("explicit_auth", 0) == 1;
         let ocfg = ArcCfg { variant: case.cfg.variant.clone(), layers: 0, level: 0, recipients: 0, reader: 0, rng_seed: 0, key_seed: 0 };
-        let plain = ReadCfg { keys: vec![], sched: Sched::Full, budget: u64::MAX / 2, error_at_read: None, spill_path: None };
+        let plain = ReadCfg { keys: vec![], sched: Sched::Full, budget: u64::MAX / 2, error_at_read: None, spill_path: None, explicit_auth_mode: false };
         let mut frng = Rng::new(case.param("fault_seed", 1) as u64);
         let faults = faults_for(case, &image, hlen, chunk, &mut frng);
         let look = case.param("lookalike", 0) == 1;
